@@ -1,4 +1,4 @@
-use crate::{reader::AseReader, tilemap::TileBitmaskHeader, Result};
+use crate::{reader::AseReader, tilemap::TileBitmaskHeader, AsepriteParseError, Result};
 use std::{io::Read, ops::Index};
 
 #[derive(Debug, Clone, Copy, PartialEq, Eq, PartialOrd, Ord, Hash)]
@@ -60,6 +60,13 @@ impl Tiles {
         // Only 32-bit tiles supported for now
         let expected_output_size = 4 * expected_tile_count;
         let bytes = reader.unzip(expected_output_size)?;
+        if bytes.len() != expected_output_size {
+            return Err(AsepriteParseError::InvalidInput(format!(
+                "Invalid tilemap data size. Expected: {}, Actual: {}",
+                expected_output_size,
+                bytes.len()
+            )));
+        }
         let tiles: Result<Vec<Tile>> = bytes
             .chunks_exact(4)
             .map(|bytes| Tile::new(bytes, header))
